@@ -102,6 +102,7 @@ def run(pid, tier, seed):
         stride = 173 if quick else 7
         lps += [("exhaustive slice", lp) for i, lp in enumerate(pool) if i % stride == seed % stride][: (300 if quick else 30000)]
         lps += lpfam.corpus("solve")
+        lps += [("tinycoef", lpfam.tinycoef(rng.fork("tiny%d" % k))) for k in range(10 if quick else 100)]
         lps += lpfam.mixed(rng.fork("mixed"), 250 if quick else 4000)
         for k in ([3, 4] if quick else [3, 4, 5, 6, 7]):
             lps.append(("klee-minty", lpfam.klee_minty(k)))
